@@ -21,7 +21,7 @@ RESOLUTIONS = [0.5, 1.0, 2.0]
 
 def plan(tier, seed, scale):
     q = tier == "quick"
-    return {"n_cases": int((1600 if q else 40000) * scale), "timeout_s": 900 if q else 10800}
+    return {"n_cases": int((1600 if q else 600000) * scale), "timeout_s": 900 if q else 10800}
 
 
 def mk_scn(rng: random.Random, cls: str) -> dict:
